@@ -46,6 +46,7 @@ type Case struct {
 }
 
 const initial = 10
+const resetLoopN = 1500
 const nGates = 3
 
 func (o Op) text() string {
@@ -75,6 +76,13 @@ func (o Op) text() string {
 	case "swapother":
 		// the update function swaps another atom (it may run more than once: each run swaps)
 		return fmt.Sprintf("(swap! %s (fn (x) (do %s(h-swap-add! %d %d) (+ x 1))))", a, g, o.Other, o.Arg)
+	case "setrest":
+		// a variadic update function that keeps its rest arguments as the new value
+		return fmt.Sprintf("(swap! %s (fn (old & xs) xs) %d %d %d)", a, o.Arg, o.Arg+1, o.Arg+2)
+	case "resetloop":
+		// many reset!s in a row, each checked against its argument; the result is the list of mismatches
+		// (on an atom of its own, a3: the intermediate values are nobody else's business)
+		return fmt.Sprintf("(reduce (fn (bad i) (let (v (+ %d i)) (if (= (reset! a3 v) v) bad (cons v bad)))) (list) (range 0 %d))", 100000*(o.Arg+10*o.Atom), resetLoopN)
 	case "resetseq":
 		return fmt.Sprintf("(reset! %s %s)", a, seqValues[o.Arg%len(seqValues)].src)
 	case "conj":
@@ -104,7 +112,7 @@ var seqValues = []struct {
 
 func genOp(t *rapid.T, atoms int, allowGate bool) Op {
 	o := Op{Gate: -1, Atom: gen.Uniform(t, "atom", atoms), Arg: 1 + gen.Uniform(t, "arg", 5)}
-	kinds := []string{"deref", "deref", "reset", "add", "add", "add", "fail", "addself", "addother", "resetother", "swapother", "gensym", "memo", "resetseq", "resetseq", "conj"}
+	kinds := []string{"deref", "deref", "reset", "add", "add", "add", "fail", "addself", "addother", "resetother", "swapother", "gensym", "memo", "resetseq", "resetseq", "conj", "setrest", "setrest", "resetloop"}
 	o.Kind = kinds[gen.Uniform(t, "kind", len(kinds))]
 	if atoms < 2 && (o.Kind == "addother" || o.Kind == "resetother" || o.Kind == "swapother") {
 		o.Kind = "add"
@@ -267,7 +275,7 @@ func newRunner(c Case, gatesOpen bool) *runner {
 		r.gates = append(r.gates, g)
 	}
 	bg := context.Background()
-	for i := 0; i < 3; i++ {
+	for i := 0; i < 4; i++ {
 		if res := box.ReadEval(bg, fmt.Sprintf("(def a%d (atom %d))", i, initial), r.env); res.Err != nil {
 			panic(res.Err)
 		}
@@ -427,6 +435,19 @@ func (r *runner) exec(ctx context.Context, client int, o Op) string {
 		r.record(client, opIn{Kind: "resetseq", Atom: o.Atom, Seq: val.Canon(seqValues[o.Arg%len(seqValues)].v)}, out, t0, t1)
 	case "conj":
 		r.record(client, opIn{Kind: "conj", Atom: o.Atom, Arg: o.Arg}, out, t0, t1)
+	case "setrest":
+		if res.Err != nil {
+			return fmt.Sprintf("%s failed: %v", o.text(), res.Err)
+		}
+		r.record(client, opIn{Kind: "resetseq", Atom: o.Atom, Seq: val.Canon(val.L(val.I(o.Arg), val.I(o.Arg+1), val.I(o.Arg+2)))}, out, t0, t1)
+	case "resetloop":
+		if res.Err != nil {
+			return fmt.Sprintf("%s failed: %v", o.text(), res.Err)
+		}
+		if out.Val != "()" {
+			return fmt.Sprintf("%s: reset! returned something else than its argument for the arguments %s", o.text(), out.Val)
+		}
+		return ""
 	case "add", "addself":
 		// on an atom that currently holds a sequence the update function fails: the model decides
 		r.record(client, opIn{Kind: "add", Atom: o.Atom, Arg: o.Arg}, out, t0, t1)
